@@ -477,6 +477,9 @@ func ruleC17(p *Prog, r *Res) {
 	sort.Strings(storesThroughRecv)
 	for _, m := range storesThroughRecv {
 		name := m[strings.IndexByte(m, '.')+1:]
+		if !ast.IsExported(name) {
+			continue // a helper of the package: only exported methods can be called on a published bitmask from outside
+		}
 		r.Check(bmMutators[name], rule+" mutator-list", m+" stores through its receiver", "", "listed as mutating in the copy-on-write rule (C06-a)", "this method writes its receiver but is not in the list of mutating methods the copy-on-write rule checks: in-place changes through it on published bitmasks would go unnoticed")
 	}
 	for name := range bmMutators {
